@@ -190,7 +190,7 @@ func RunCase(line string) (impl, fail, sig string, err error) {
 			if err2 != nil {
 				return "", "", "", err
 			}
-			impl, fail = subEncX(xd)
+			impl, fail, _ = subEncX2(xd)
 			return impl, fail, "c08-subtable-" + xd.kind, nil
 		}
 		impl, fail, _ = subEnc(d)
